@@ -1,5 +1,5 @@
 (* Properties/C19.v — pinned statements only. *)
-From Boreal Require Import Base.Prelude Model.Process Spec.ProcessSpec Proofs.ProcessProofs Proofs.FetchProofs.
+From Boreal Require Import Base.Prelude Model.Process Spec.ProcessSpec Proofs.ProcessProofs Proofs.FetchProofs Proofs.ProcessCover.
 
 Theorem C19_chunks_tile :
   forall prm r cs fuel,
@@ -51,6 +51,27 @@ Theorem C19_occurrence_in_one_chunk :
               /\ (forall c', In c' l -> in_chunk a c' -> c' = c)
               /\ (a + n <= fst c + snd c \/ (a < fst c + snd c < a + n)).
 Proof. exact occurrence_in_one_chunk. Qed.
+
+(* what a tiling covers: exactly the addresses of the mapping, no more and no fewer; the chunk lengths add
+   up to the mapping's length; and two different chunk sizes see the same addresses *)
+Theorem C19_tiles_cover_exactly :
+  forall start len l a,
+    Tiles start len l -> ((exists c, In c l /\ in_chunk a c) <-> start <= a < start + len).
+Proof. exact tiles_cover_exactly. Qed.
+
+Theorem C19_tiles_total_len :
+  forall start len l, Tiles start len l -> total_len l = len.
+Proof. exact tiles_total_len. Qed.
+
+Theorem C19_chunkings_same_addresses :
+  forall prm1 prm2 r cs1 cs2 fuel1 fuel2 a,
+    chunk prm1 = Some cs1 -> 0 < page prm1 -> chunk prm2 = Some cs2 -> 0 < page prm2 ->
+    0 < r_len r -> r_start r + r_len r <= umax ->
+    r_len r <= N.of_nat fuel1 * round_page cs1 (page prm1) ->
+    r_len r <= N.of_nat fuel2 * round_page cs2 (page prm2) ->
+    ((exists c, In c (walk (S fuel1) prm1 (pinit [r])) /\ in_chunk a c)
+     <-> (exists c, In c (walk (S fuel2) prm2 (pinit [r])) /\ in_chunk a c)).
+Proof. exact chunkings_same_addresses. Qed.
 
 (* non-vacuity: a concrete region meets the hypotheses of C19_chunks_tile *)
 (* The pagemap optimisation is transparent: a fetch of a file-backed chunk — file-backed pages read from the
@@ -127,3 +148,6 @@ Print Assumptions C19_pagemap.
 Print Assumptions C19_occurrence_in_one_chunk.
 Print Assumptions C19_fetch_is_view.
 Print Assumptions C19_read_mem_slice.
+Print Assumptions C19_tiles_cover_exactly.
+Print Assumptions C19_tiles_total_len.
+Print Assumptions C19_chunkings_same_addresses.
